@@ -2,7 +2,7 @@
 (* C03, code level: TLC judges what the implementation did with                         *)
 (*  cases : PDUs built from field values  [name, vals, err, n, bits, dec, bits2]        *)
 (*  raws  : arbitrary right-length bit strings [family, n, outcome, n1, bits1, bits2]   *)
-(*  elems : every value of every element enumeration [enum, w, v, defined, result, rname, wbits, back] *)
+(*  elems : every value of every element enumeration [enum, w, v, defined, result, rname, wbits, back, bits] *)
 (*  gps   : GPS-info link controls built from in-range coordinates that are NOT on the    *)
 (*          25 / 24 bit grid: [w, raw, quarter, err, n, total, dec] - the built value is   *)
 (*          (raw + quarter/4) steps (raw signed), dec the signed grid index decoded back  *)
@@ -45,6 +45,9 @@ Judge(ph, i) ==
                   ELSE IF e.result = -2 THEN "UndefinedValueMapsToNothing"
                   ELSE IF ~e.defined /\ e.result >= 0 /\ ClassOf(e.enum, e.v) # "" /\ e.rname # ClassOf(e.enum, e.v)
                        THEN "UndefinedValueMapsToStandardsReservedMember"
+                  \* a defined value's member serialises to that value - whatever was decoded before it (bits = -1: the element has
+                  \* no as_bits); how the member an UNDEFINED value was folded onto serialises is left to the fixed-point clause
+                  ELSE IF e.defined /\ e.bits >= 0 /\ e.bits # e.v THEN "DefinedValueMapsToItself(serialised)"
                   ELSE IF e.result >= 0 /\ e.back # e.result THEN "ElementBitsRoundTrip"
                   ELSE IF e.result >= 0 /\ e.wbits # e.w THEN "ElementWidth" ELSE "ok",
           dr |-> "ok"]
